@@ -22,8 +22,9 @@ RULE = ("real scan/scan_subsets runs under injected faults: every single fault p
         "(and file) watched; segments still mapped by the calling process after the call. distinct = distinct (mode, score, analyzer, dims, tiles, rotations, "
         "schedule, fault set, ambient) tuples; fault-free single-tile single-job runs are trivial and not counted")
 ASSUMPTIONS = [
-    "faults are ordinary Exception subclasses raised at instrumented program points; BaseException, hard worker death "
-    "(SIGKILL/OOM of a worker by the OS) and OS-level leaks are outside the model",
+    "faults are ordinary Exception subclasses raised at instrumented program points; KeyboardInterrupt / SystemExit are injected in "
+    "sequential searches only (clauses: not turned into a returned result, nothing left behind; no model agreement); other "
+    "BaseExceptions, hard worker death (SIGKILL/OOM of a worker by the OS) and OS-level leaks are outside the model",
     "segments are attributed to the call through a creation ledger (every SharedMemory(create=True) in every process is "
     "logged); only those names are looked up in /dev/shm afterwards, so concurrent users of /dev/shm do not interfere",
     "theorems are stated for an empty ambient exception (the model exposes the sys.exc_info()-on-entry behaviour)",
@@ -395,7 +396,9 @@ def run_real(sc):
         else:
             result = call()
         obs["outcome"] = "returned"
-    except Exception as e:  # noqa: BLE001 - every failure of the call is an observation
+    except BaseException as e:  # noqa: BLE001 - every failure of the call is an observation
+        if not isinstance(e, Exception) and not (sc.get("exc") in BASE_KINDS and e.args and str(e.args[0]).startswith("pvfault:")):
+            raise           # a real interrupt of the check itself, not an injected one
         name, wraps, root = _exc_info(e)
         obs["outcome"] = "raised"
         obs["exc"] = {"class": name, "wraps": wraps, "root_class": type(root).__name__, "root_pos": _root_pos(root),
@@ -753,6 +756,40 @@ def _sweep(ctx, rng, nconf, tag, small=False):
     return n
 
 
+BASE_KINDS = ["KeyboardInterrupt", "SystemExit"]
+
+
+def _base_exceptions(ctx, rng, tag):
+    """faults that are not `Exception`s (Ctrl-C, sys.exit() somewhere below the search), sequential schedules only: whatever
+    the library does with them, it must not hand back a result as if the search had completed, and it must not leave segments"""
+    F = _setup()
+    F._EXC.update({"KeyboardInterrupt": KeyboardInterrupt, "SystemExit": SystemExit})
+    for c in range(ctx.budget(2, 8)):
+        sc = _base(rng)
+        sc.update(mode=["subsets", "scan"][c % 2], splits={"0": 2} if c % 2 == 0 else {}, nrot=2, analyzer="max", memmap=False, sched=[1, 1])
+        pts = _points(ctx, sc)
+        first = {}
+        for p in pts:
+            first.setdefault(p[0], p)
+        for ph, p in sorted(first.items()):
+            if ph in ("subset", "outerMerge") and sc["mode"] == "scan":
+                continue
+            for k in BASE_KINDS:
+                s2 = dict(sc, faults=[list(p)], exc=k)
+                obs = run_real(s2)
+                inp = {"scenario": {kk: v for kk, v in s2.items() if kk != "dseed"}, "dseed": s2.get("dseed")}
+                fired = bool(obs.get("fired"))
+                if not fired:
+                    ctx.count("base-exception:point-not-reached")
+                    continue
+                ctx.spec("a returned result is the complete result", inp, obs["outcome"] == "raised",
+                         {"outcome": obs["outcome"], "result": _brief(obs.get("result"))}, key="base-exception:returned")
+                ctx.spec("no shared-memory segment of the call is left", inp, not obs["leaked"], {"left": obs["leaked"]},
+                         key="base-exception:leak")
+                ctx.count("base-exception:" + k)
+                ctx.distinct(("base-exc", sc["mode"], ph, k))
+
+
 def _exc_matrix(ctx, rng, tag, nconf):
     """every program-point kind x every kind of exception (what is raised must not decide whether the search fails).
     Quick: the full product for the usual kinds and the chameleons (pv.c16_hooks: a few classes that together are instances
@@ -1097,6 +1134,7 @@ def _run(ctx):
     _canary(ctx, "canary")
     timed("sweep", _sweep, ctx, rng, ctx.budget(4, 12), "sweep", not ctx.thorough)
     timed("exc-matrix", _exc_matrix, ctx, rng, "excmatrix", ctx.budget(1, 2))
+    timed("base-exceptions", _base_exceptions, ctx, ctx.rng("baseexc"), "baseexc")
     timed("random", _random_seq, ctx, rng, ctx.budget(50, 500), "rand")
     timed("inputs", _inputs, ctx, ctx.rng("inputs"), "inputs", ctx.budget(1, 6))
     timed("special", _special, ctx, rng, "special", ctx.budget(4, 20))
